@@ -208,7 +208,13 @@ func runCrash(o *Out, r *rand.Rand, thorough bool, _ []string) {
 		var node enode.ID
 		r.Read(node[:])
 		capMB := uint64(1)
+		if h == 1 {
+			capMB = 8 // the second history has room for values of 2 MiB and more (pebble treats such batches specially)
+		}
 		nPuts := 12 + r.Intn(6)
+		if h == 1 {
+			nPuts = 7
+		}
 		var puts []crashPut
 		for i := 0; i < nPuts; i++ {
 			id := make([]byte, 32)
@@ -222,6 +228,9 @@ func runCrash(o *Out, r *rand.Rand, thorough bool, _ []string) {
 			}
 			if h == 0 {
 				n = 90000 + r.Intn(20000) // the first history always prunes and passes the 95 % mark
+			}
+			if h == 1 {
+				n = []int{2 << 20, 2<<20 - 1, 3 << 20, 500000, 2<<20 + 1, 900000, 100}[i%7]
 			}
 			puts = append(puts, crashPut{id, n, r.Intn(1000)})
 		}
@@ -259,7 +268,7 @@ func runCrash(o *Out, r *rand.Rand, thorough bool, _ []string) {
 			// where a torn write matters) and a spread of the earlier ones
 			keep := map[int]bool{}
 			step := float64(len(cuts)-10) / float64(maxCuts-10)
-			for i := 0; i < maxCuts-10; i++ {
+			for i := 0; i < maxCuts-10 && h != 1; i++ { // the large-value history: log writes and the last operations only
 				keep[cuts[int(float64(i)*step)]] = true
 			}
 			for _, k := range cuts[len(cuts)-10:] {
@@ -314,7 +323,7 @@ func runCrash(o *Out, r *rand.Rand, thorough bool, _ []string) {
 			if !isLog {
 				continue
 			}
-			for j := 0; j < tornSteps; j++ {
+			for j := 0; j < tornSteps && (h != 1 || j < 2 || thorough); j++ {
 				mem := vfs.NewStrictMem()
 				frozen := make(chan struct{})
 				var once sync.Once
